@@ -388,6 +388,8 @@ main(int argc, char *argv[])
 	argv0 = progname(argv[0], "cproc");
 	if (atexit(removetmpfiles) != 0)
 		fatal("atexit:");
+	/* if SIGCHLD is inherited as ignored, wait() cannot report our children */
+	signal(SIGCHLD, SIG_DFL);
 
 	arrayaddbuf(&stages[PREPROCESS].cmd, preprocesscmd, sizeof(preprocesscmd));
 	arrayaddptr(&stages[COMPILE].cmd, compilecommand(argv[0]));
